@@ -7,7 +7,8 @@
    The JSON text layers are proved for the modelled subset (see C09.v); whole BQM / QM / expression files. *)
 From Coq Require Import List NArith ZArith Arith Bool.
 From Dimod Require Import Gen.Gen_Codec Model.Codec Model.ChkC09 Proofs.CodecBase Proofs.CodecFrame Proofs.CodecBqm Proofs.CodecBqmTop
-  Proofs.CodecLabel Proofs.CodecJson Proofs.CodecBqmFull Proofs.CodecQm Proofs.CodecExpr Proofs.CodecExact.
+  Proofs.CodecLabel Proofs.CodecJson Proofs.CodecBqmFull Proofs.CodecQm Proofs.CodecExpr Proofs.CodecExact
+  Model.CqmFile Proofs.CqmArchive Proofs.CqmMemberCut.
 Import ListNotations.
 
 Theorem header_prefix_safe :
@@ -126,6 +127,14 @@ Theorem decode_ok_only_if_padding_lost_expr : forall f k x, ExprWF f -> k < leng
 Proof. exact CodecExact.expr_ok_only_if_padding_lost. Qed.
 Print Assumptions decode_ok_only_if_padding_lost_expr.
 
+(* members of a CQM serialization-version-1.x archive (whole QM or BQM files loaded through fileview.load's dispatch
+   on the magic prefix, header "type" entry ignored): cut at any byte offset, a member is rejected or denotes the same
+   expression - it never dispatches to the other loader and never yields a different expression *)
+Theorem legacy_member_prefix_safe : forall m k, MemberWF m -> k < length (member_encode m) ->
+  member_decode (firstn k (member_encode m)) = Err \/ member_decode (firstn k (member_encode m)) = Ok (member_nexpr m).
+Proof. exact CqmMemberCut.member_decode_prefix_safe. Qed.
+Print Assumptions legacy_member_prefix_safe.
+
 (* on the implementation's own bytes: every one of the 324 prefixes of the example file is an error or
    the same content, and the accepted ones start after the closing bracket of the VARS JSON *)
 Example bqm_example_all_prefixes :
@@ -135,6 +144,6 @@ Example bqm_example_all_prefixes :
              (Some [LStr [97]%N; LStr [98]%N; LTup [LStr [116]%N; LInt 1]]) in
   forallb (fun k => match run bqm_decode (firstn k (bqm_encode f)) with
                     | Err => true
-                    | Ok g => Nat.leb 288 k && ChkC09.bqmfile_eqb g f
+                    | Ok g => Nat.leb 288 k && CodecEq.bqmfile_eqb g f
                     end) (seq 0 324) = true.
 Proof. vm_compute. reflexivity. Qed.
